@@ -644,6 +644,11 @@ Section Runs.
                           end]
     end.
 
+  (* how many fill items the last run of batch needs: 0 when there is no open run *)
+  Definition batch_missing (count : Z) (l : list A) : Z :=
+    let '(_, (tmp, n)) := batch_go count [] 0 l in
+    match tmp with [] => 0 | _ => count - n end.
+
   (* filters.rs::slice.  [slice] runs over 0..count. *)
   Fixpoint slice_go (fuel : nat) (items : list A) (count per extra : Z) (fill : option A)
            (slice offset : Z) : list (list A) :=
@@ -745,13 +750,20 @@ Definition f_groupby (cs : bool) (key : list Z) (dflt : value) (v : value) : out
     let sorted := stable_sort (fun a b => c (k a) (k b)) items in
     Ok (VSeq (map (fun g => VSeq [fst g; VIter LzUnsized (snd g)]) (group_go c k None sorted)))).
 
-(* the filler is pushed count - tmp.len() times *)
+(* the filler is pushed count - tmp.len() times, at most 100000 times *)
 Definition f_batch (count : Z) (fill : option value) (v : value) : outcome value :=
   if count =? 0 then Err E_InvalidOperation
-  else bind (iter_items v) (fun items => Ok (VSeq (map VSeq (batch_of count fill items)))).
+  else bind (iter_items v) (fun items =>
+         match fill with
+         | Some _ => if 100000 <? batch_missing count items then Err E_InvalidOperation
+                     else Ok (VSeq (map VSeq (batch_of count fill items)))
+         | None => Ok (VSeq (map VSeq (batch_of count fill items)))
+         end).
 
+(* at most 100000 slices *)
 Definition f_slice (count : Z) (fill : option value) (v : value) : outcome value :=
   if count =? 0 then Err E_InvalidOperation
+  else if 100000 <? count then Err E_InvalidOperation
   else bind (iter_items v) (fun items => Ok (VSeq (map VSeq (slice_of count fill items)))).
 
 (* filters.rs::reverse + Value::reverse *)
